@@ -16,6 +16,7 @@ fn main() {
     let mut tier = std::env::var("VERIF_TIER").unwrap_or_else(|_| "quick".into());
     let mut seed: u64 = std::env::var("VERIF_SEED").ok().and_then(|s| s.parse().ok()).unwrap_or(1);
     let mut root = String::from("/verif");
+    let mut replay: Option<String> = None;
     let mut i = 2;
     while i < args.len() {
         match args[i].as_str() {
@@ -25,6 +26,10 @@ fn main() {
             }
             "--seed" => {
                 seed = args.get(i + 1).and_then(|s| s.parse().ok()).unwrap_or_else(|| usage());
+                i += 2;
+            }
+            "--replay" => {
+                replay = Some(args.get(i + 1).cloned().unwrap_or_else(|| usage()));
                 i += 2;
             }
             "--root" => {
@@ -40,7 +45,11 @@ fn main() {
     if tier != "quick" && tier != "thorough" {
         usage();
     }
+    let _ = compass_verif::ROOT.set(root.clone());
     compass_verif::hooks::install();
+    if let Some(path) = replay {
+        std::process::exit(mon::replay_file(&prop, &path));
+    }
     let t0 = Instant::now();
     let out = match mon::run(&prop, Tier { thorough: tier == "thorough" }, seed) {
         Some(o) => o,
